@@ -120,6 +120,31 @@ theorem eager_html_balance (env : Env) : ∀ (items : List (Item HtmlCb)) (o : L
         rw [balance_append, balance_htmlStep env o o' c evs hs]
         simpa using h1
 
+/-! ### what an end tag closes -/
+
+/-- an end tag closes the open elements up to and including the innermost one with the same name
+    (case-insensitively) … -/
+theorem popTo_match (env : Env) (tag : Str) : ∀ (pre : List Str) (t : Str) (post : List Str),
+    (∀ x ∈ pre, env.lower x ≠ env.lower tag) → env.lower t = env.lower tag →
+    popTo env tag (pre ++ t :: post) = (post, (pre ++ [t]).map fun x => Event.end_ (mkQName x))
+  | [], t, post, _, ht => by simp [popTo, ht]
+  | p :: pre, t, post, hpre, ht => by
+      have hp : env.lower p ≠ env.lower tag := hpre p (by simp)
+      simp only [List.cons_append, popTo, hp, ↓reduceIte]
+      rw [popTo_match env tag pre t post (fun x hx => hpre x (by simp [hx])) ht]
+      simp
+
+/-- … and every open element when none has that name -/
+theorem popTo_nomatch (env : Env) (tag : Str) : ∀ (o : List Str),
+    (∀ x ∈ o, env.lower x ≠ env.lower tag) →
+    popTo env tag o = ([], o.map fun x => Event.end_ (mkQName x))
+  | [], _ => rfl
+  | p :: o, h => by
+      have hp : env.lower p ≠ env.lower tag := h p (by simp)
+      simp only [popTo, hp, ↓reduceIte]
+      rw [popTo_nomatch env tag o (fun x hx => h x (by simp [hx]))]
+      simp
+
 /-! ### void elements -/
 
 theorem voidClosed_append (v : List Str) : ∀ (a b : Stream),
